@@ -249,4 +249,99 @@ Section Idem.
     - cbn in H. unfold walk_map in H. cbn in H. inv H.
       exists 1. eexists. split; [intros sc' g' Hg; destruct g' as [|g']; [lia|]; cbn; unfold walk_map; cbn; reflexivity|reflexivity].
   Qed.
+
+  (* ---- finitely many second runs share one fuel ---- *)
+  Lemma uniform_fuel (Q : string -> nat -> option wres -> Prop) l :
+    (forall k g g' r, Q k g r -> g <= g' -> Q k g' r) ->
+    (forall k, In k l -> exists g r, Q k g r) ->
+    exists G R, forall k, In k l -> Q k G (R k).
+  Proof.
+    intros Hmono. induction l as [|x t IH]; intros H.
+    - exists 0, (fun _ => None). intros k [].
+    - destruct (H x (or_introl eq_refl)) as [gx [rx Hx]].
+      destruct IH as [G [R HR]]; [intros k Hk; apply H; right; auto|].
+      exists (Nat.max gx G), (fun k => if string_dec k x then rx else R k).
+      intros k [->|Hk].
+      + destruct (string_dec k k); [|congruence]. eapply Hmono; eauto. lia.
+      + destruct (string_dec k x) as [->|].
+        * eapply Hmono; eauto. lia.
+        * eapply Hmono; [apply HR; auto|lia].
+  Qed.
+
+  Lemma fvs_none tv pv k dv : fvs None [tv; pv] k dv = [dv; field_of k pv].
+  Proof. reflexivity. Qed.
+  Lemma fvs_alias1 tv pv k dv : fvs (Some 1) [tv; pv] k dv = [dv; dv].
+  Proof. reflexivity. Qed.
+
+  Lemma in_field_names k srcs :
+    In k (field_names srcs) <-> exists kvs, In (Some (Map kvs)) srcs /\ In k (keys kvs).
+  Proof.
+    unfold field_names. rewrite in_sort_uniq, in_flat_map. split.
+    - intros [s [Hs Hk]]. destruct s as [[| kvs |]|]; try contradiction. eauto.
+    - intros [kvs [Hs Hk]]. exists (Some (Map kvs)). split; auto.
+  Qed.
+
+  Lemma field_of_in k pv v : field_of k pv = Some v -> exists pk, pv = Some (Map pk) /\ In k (keys pk).
+  Proof.
+    destruct pv as [[| pk |]|]; cbn; try discriminate. intros F. exists pk. split; auto.
+    destruct (in_dec string_dec k (keys pk)) as [|Hn]; auto. apply find_field_none_iff in Hn. congruence.
+  Qed.
+
+  (* ---- the structural case: one mapping level, given the induction hypothesis for the fields ---- *)
+  Lemma struct_core f sc0 alias' srcs d0 names pv d :
+    (forall sc alias tv pv r,
+        W f sc alias [tv; pv] = Ok r -> aliasing alias tv pv ->
+        ofrag wfk tv = true -> ofrag wfk pv = true -> ofrag nodir pv = true ->
+        second_ok (fval nonstr r tv) pv) ->
+    NoDup names -> wfk (Map d0) = true ->
+    plain_patch pv -> ofrag wfk pv = true -> ofrag nodir pv = true ->
+    (forall k, fvs alias' srcs k (find_field k d0) = [find_field k d0; field_of k pv] /\
+               aliasing alias' (find_field k d0) (field_of k pv)) ->
+    (forall k, In k (keys d0) \/ field_of k pv <> None -> In k names) ->
+    walk_fields sch nonstr (W f) sc0 alias' srcs names (Map d0) = Ok d ->
+    exists kvs', d = Map kvs' /\ second_ok (Some (Map kvs')) pv.
+  Proof.
+    intros IH Hnd Hwf Hplain Hwp Hnp Hfv Hnames Hw.
+    destruct (wfk_map _ Hwf) as [Hnk Hsub].
+    destruct (walk_fields_map sch nonstr _ _ _ _ names Hnd _ _ Hnk Hw) as [kvs' [-> [Hnk' [Hout Hin]]]].
+    exists kvs'. split; auto.
+    (* the fields of the patch *)
+    assert (Hpsub : forall k, ofrag wfk (field_of k pv) = true /\ ofrag nodir (field_of k pv) = true).
+    { intros k. destruct pv as [[| pk |]|]; cbn [field_of]; try (split; reflexivity).
+      cbn in Hwp, Hnp. destruct (wfk_map _ Hwp) as [_ H1]. destruct (nodir_map _ Hnp) as [_ H2].
+      split; apply ofrag_field; auto. }
+    (* every walked key: the second walk of that key is a fixpoint *)
+    assert (Hkeys : forall k, In k names ->
+              exists g r', (forall sc' g', g <= g' -> W g' sc' None [find_field k kvs'; field_of k pv] = Ok r') /\
+                           fval nonstr r' (find_field k kvs') = find_field k kvs').
+    { intros k Hk. destruct (Hin k Hk) as [r [Hr Hf]].
+      destruct (Hfv k) as [Efv Hal]. rewrite Efv in Hr.
+      destruct (Hpsub k) as [Hp1 Hp2].
+      assert (Ht : ofrag wfk (find_field k d0) = true) by (apply ofrag_field; auto).
+      destruct (IH _ _ _ _ _ Hr Hal Ht Hp1 Hp2) as [g [r' [H1 H2]]].
+      rewrite <- Hf in H1, H2. exists g, r'. split; auto. }
+    (* names of the second run are among the first run's *)
+    set (names2 := field_names [Some (Map kvs'); pv]).
+    assert (Hsub2 : forall k, In k names2 -> In k names).
+    { intros k Hk. apply in_field_names in Hk. destruct Hk as [kvs [Hs Hkk]].
+      destruct Hs as [E|[E|[]]].
+      - inv E. destruct (in_dec string_dec k names) as [|Hn]; auto.
+        apply Hnames. left.
+        destruct (in_dec string_dec k (keys d0)) as [|Hn0]; auto. exfalso.
+        apply find_field_none_iff in Hn0. rewrite <- (Hout k Hn) in Hn0.
+        apply find_field_none_iff in Hn0. contradiction.
+      - subst pv. apply Hnames. right. cbn [field_of].
+        destruct (find_field k kvs) eqn:F; [discriminate|]. apply find_field_none_iff in F. contradiction. }
+    destruct (uniform_fuel
+                (fun k g r' => (forall sc' g', g <= g' -> W g' sc' None [find_field k kvs'; field_of k pv] = Ok r') /\
+                               fval nonstr r' (find_field k kvs') = find_field k kvs') names2) as [G [R2 HR2]].
+    { intros k g g' r [H1 H2] Hg. split; auto. intros sc' g2 Hg2. apply H1. lia. }
+    { intros k Hk. apply Hkeys. apply Hsub2; auto. }
+    exists (S G), (Some (mkW (Map kvs') false true)). split; [|reflexivity].
+    intros sc' g' Hg. destruct g' as [|g2]; [lia|].
+    rewrite level_merge by auto.
+    rewrite (walk_fields_shape sch nonstr (W g2) _ None _ names2 R2 (nodup_sort_uniq _) kvs' Hnk').
+    - rewrite shape_fix; auto. intros k Hk. apply (HR2 k Hk).
+    - intros k Hk. rewrite fvs_none. apply (HR2 k Hk). lia.
+  Qed.
 End Idem.
